@@ -56,8 +56,23 @@ func verifUnsignedSnp(uefi []byte, req *sev.SnpEndorsementRequest) (*epb.VMSevSn
 	return &epb.VMSevSnp{Svn: req.Svn, Measurements: m}, nil
 }
 
+// verifTdxRows: the rows a request asks for — the default one, one per machine shape, and the
+// early-accept twin of every shape row when asked (rows are identified by RAM size AND acceptance
+// mode) — with summarised measurements.
+func verifTdxRows(uefi []byte, req *tdx.EndorsementRequest) []*epb.VMTdx_Measurement {
+	rows := []*epb.VMTdx_Measurement{{Mrtd: verifMR(uefi)}}
+	for i := range req.MachineShapes {
+		ram := uint32(16 * (i + 1))
+		rows = append(rows, &epb.VMTdx_Measurement{RamGib: ram, Mrtd: []byte{byte(verifUF64("mrtd_shape", uint64(uefi[0]), uint64(ram), 0))}})
+		if req.IncludeEarlyAccept {
+			rows = append(rows, &epb.VMTdx_Measurement{RamGib: ram, EarlyAccept: true, Mrtd: []byte{byte(verifUF64("mrtd_shape", uint64(uefi[0]), uint64(ram), 1))}})
+		}
+	}
+	return rows
+}
+
 func verifUnsignedTDX(uefi []byte, req *tdx.EndorsementRequest) (*epb.VMTdx, error) {
-	return &epb.VMTdx{Svn: req.Svn, Measurements: []*epb.VMTdx_Measurement{{Mrtd: verifMR(uefi)}}}, nil
+	return &epb.VMTdx{Svn: req.Svn, Measurements: verifTdxRows(uefi, req)}, nil
 }
 
 func verifMakeEvents(random io.Reader, endorsement *epb.VMLaunchEndorsement) ([]byte, error) {
@@ -96,7 +111,10 @@ func VerifC15() {
 		ec.SevSnp = &sev.SnpEndorsementRequest{Svn: svn, LaunchVmsas: vmsas}
 	}
 	if withTdx {
-		ec.Tdx = &tdx.EndorsementRequest{Svn: svn}
+		ec.Tdx = &tdx.EndorsementRequest{Svn: svn, IncludeEarlyAccept: verifNondetBool("tdx_early_accept")}
+		if verifNondetBool("tdx_one_shape") {
+			ec.Tdx.MachineShapes = []string{"c3-standard-4"}
+		}
 	}
 	ctx := NewContext(context.Background(), ec)
 	ctx = output.NewContext(ctx, &output.Options{Overwrite: verifNondetBool("overwrite")})
@@ -123,8 +141,10 @@ func VerifC15() {
 			}
 		}
 		if withTdx {
-			verifAssert(verifHas(verifPrinted, hex.EncodeToString(verifMR(image))), "reported TDX measurement is the one a real run signs")
-			n++
+			for _, row := range verifTdxRows(image, ec.Tdx) {
+				verifAssert(verifHas(verifPrinted, hex.EncodeToString(row.Mrtd)), "every TDX row a real run signs is reported")
+				n++
+			}
 		}
 		verifAssert(len(verifPrinted) == n, "nothing else reported as a measurement")
 	} else if dry {
